@@ -270,9 +270,7 @@ def _r4(ctx, m):
             good = False
         if good:
             ctx.ok("R4", site_key(s), where(s), f"rhs[species.index(Species(name))] += {s.text!r}")
-    others = [s for s in m.sites if s.array == "rhs" and s.kind == "other"]
-    for s in others:
-        report_problems(ctx, "R4", s)
+    # stores into rhs that C13 cannot attribute to a modifier are C01.R5's business (no alarm here)
 
 
 def _str_keys(node):
